@@ -2,7 +2,7 @@
    Property theorems only (each closed by [exact] of a lemma of IndexProofs.v),
    non-vacuity examples, regression witnesses of the repaired defects, and
    Print Assumptions.  Model: Index.v (types/manifest.go). *)
-From Olareg Require Import Base Index IndexProofs.
+From Olareg Require Import IndexInv Base Index IndexProofs.
 Local Open Scope list_scope.
 
 (* every finite sequence of AddDesc / RmDesc / AddChildren, over any universe of
@@ -76,3 +76,13 @@ Print Assumptions C18_no_panic.
 Print Assumptions C18_rm_digest_total.
 Print Assumptions C18_untag_keeps.
 Print Assumptions C18_lookup_iff.
+
+(* I1: a tag is held by at most one top-level entry - for every sequence of AddDesc / RmDesc / AddChildren from the empty index *)
+Theorem C18_tags_unique : forall ops i, apply_ops ops empty_index = Ok i -> unique (top i).
+Proof. intros ops i H. exact (apply_ops_unique ops empty_index i unique_empty H). Qed.
+Print Assumptions C18_tags_unique.
+
+Theorem C18_add_unique : forall d cs i i', unique (top i) -> add_desc d cs i = Ok i' -> unique (top i').
+Proof. exact add_desc_unique. Qed.
+Theorem C18_rm_unique : forall d i i', unique (top i) -> rm_desc d i = Ok i' -> unique (top i').
+Proof. exact rm_desc_unique. Qed.
